@@ -204,6 +204,12 @@ class _StubDatetimeModule:
     UTC = real_datetime.UTC
     timezone = real_datetime.timezone
     time = real_datetime.time
+    tzinfo = real_datetime.tzinfo
+    MINYEAR = real_datetime.MINYEAR
+    MAXYEAR = real_datetime.MAXYEAR
+
+    def __getattr__(self, name):          # (class attribute access does not come here; kept for instances)
+        return getattr(real_datetime, name)
 
 
 def _inject():
